@@ -683,7 +683,7 @@ func (s *Sim) reconcile(fw string) {
 	var ls []*liveTask
 	for _, lt := range s.live {
 		// implicit reconciliation only reports the tasks of the asking framework
-		if !lt.Terminal && lt.State != mesos.TASK_STAGING && (fw == "" || lt.FwID == "" || lt.FwID == fw) {
+		if !lt.Terminal && (lt.State != mesos.TASK_STAGING || ReconcileStaging) && (fw == "" || lt.FwID == "" || lt.FwID == fw) {
 			ls = append(ls, lt)
 		}
 	}
